@@ -37,7 +37,7 @@ PID = "C15"
 P = "OQuPyVerif.Props.C15."
 THEOREMS = [P + n for n in (
     "all_sites_ok", "shift_invariant", "time_sites_covariant", "inv_sites_invariant",
-    "rounding_sites_exact", "tempo_time_agrees", "mft_time_agrees", "tebd_time_agrees",
+    "rounding_sites_exact", "all_probes_ok", "probe_shift_invariant", "tempo_time_agrees", "mft_time_agrees", "tebd_time_agrees",
     "cd_labels_agree", "control_rounding_agrees", "machine_covariant", "tempo_tds_covariant",
     "mft_field_covariant", "controls_covariant", "correlation_times_covariant", "site_shapes",
     "time_sites_binary64_residue_partial", "inv_sites_binary64_exact")] + [
@@ -70,9 +70,14 @@ def _ops():
               up=op.spin_dm("z+"), xp=op.spin_dm("x+"), op=op)
 
 
-def make_callables(tau, log):
-    """explicitly time dependent inputs, all moved by tau: f'(t) = f(t - tau)"""
+def make_callables(tau, log, typed=None):
+    """explicitly time dependent inputs, all moved by tau: f'(t) = f(t - tau).
+    With `typed = u_b` the RETURN TYPE of every callable changes at u = t - tau = u_b
+    (int vs float rate, real vs complex dtype of the operators), as user code does that writes
+    `0` for a switched-off rate or a real x-pulse after a complex y-pulse."""
     o = _ops()
+    if typed is not None:
+        return make_typed_callables(tau, log, typed)
 
     def ham(t):
         log("hamiltonian", t)
@@ -98,6 +103,51 @@ def make_callables(tau, log):
         log("field_eom", t)
         u = float(t) - tau
         return (-0.1j - 0.05 * np.cos(0.9 * u)) * a + (0.05 + 0.02 * u) * np.trace(o.sx @ states[0])
+
+    return NS(ham=ham, gam=gam, lop=lop, ham_f=ham_f, eom=eom)
+
+
+def make_typed_callables(tau, log, ub):
+    SX = np.array([[0.0, 1.0], [1.0, 0.0]])
+    SY = np.array([[0.0, -1.0j], [1.0j, 0.0]])
+    SZ = np.array([[1.0, 0.0], [0.0, -1.0]])
+    SM = np.array([[0.0, 0.0], [1.0, 0.0]])
+
+    def ham(t):
+        log("hamiltonian", t)
+        u = float(t) - tau
+        if u < ub:
+            return 1.1 * SY + 0.2 * SZ            # complex dtype
+        return 0.7 * SX + 0.3 * SZ                # real dtype
+
+    def gam(t):
+        log("rate", t)
+        u = float(t) - tau
+        if u > ub:
+            return 0                              # switched off: an int
+        return 0.8 * (ub - u) ** 2 + 0.3 * (ub - u) + 0.05
+
+    def lop(t):
+        log("lindblad", t)
+        u = float(t) - tau
+        if u < ub:
+            return SM                             # real dtype
+        return SM + 0.3j * SZ                     # complex dtype
+
+    def ham_f(t, a):
+        log("hamiltonian", t)
+        u = float(t) - tau
+        h = (0.5 + 0.2 * np.real(a)) * SX + 0.3 * SZ      # real dtype
+        if u < ub:
+            return h
+        return h + (0.4 + 0.1 * np.imag(a)) * SY          # complex dtype
+
+    def eom(t, states, a):
+        log("field_eom", t)
+        u = float(t) - tau
+        if u < ub:
+            return -0.1j * a + 0.05 * np.trace(SX @ states[0])
+        return 0                                  # an int
 
     return NS(ham=ham, gam=gam, lop=lop, ham_f=ham_f, eom=eom)
 
@@ -134,7 +184,7 @@ def run_tempo(p, start, tau):
     import oqupy
     from . import oq
     log = TLog()
-    c = make_callables(tau, log)
+    c = make_callables(tau, log, p.get("typed"))
     o = _ops()
     sysm = oqupy.TimeDependentSystem(c.ham, gammas=[c.gam], lindblad_operators=[c.lop])
     params = oqupy.TempoParameters(dt=p["dt"], epsrel=1e-12, dkmax=2, subdiv_limit=p["subdiv"],
@@ -152,7 +202,7 @@ def run_mft(p, start, tau):
     import oqupy
     from . import oq
     log = TLog()
-    c = make_callables(tau, log)
+    c = make_callables(tau, log, p.get("typed"))
     o = _ops()
     tsys = oqupy.TimeDependentSystemWithField(c.ham_f, gammas=[c.gam], lindblad_operators=[c.lop])
     mfs = oqupy.MeanFieldSystem([tsys], c.eom)
@@ -193,7 +243,7 @@ def run_pt_cd(p, start, tau):
     import oqupy
     from . import oq
     log = TLog()
-    c = make_callables(tau, log)
+    c = make_callables(tau, log, p.get("typed"))
     o = _ops()
     if p.get("real_pt", True):
         ptt = oqupy.PtTempo(bath=oq.cheap_bath(), start_time=start, end_time=end_of(start, p),
@@ -239,7 +289,7 @@ def run_cdwf(p, start, tau):
     import oqupy
     from . import oq
     log = TLog()
-    c = make_callables(tau, log)
+    c = make_callables(tau, log, p.get("typed"))
     o = _ops()
     tsys = oqupy.TimeDependentSystemWithField(c.ham_f, gammas=[c.gam], lindblad_operators=[c.lop])
     mfs = oqupy.MeanFieldSystem([tsys], c.eom)
@@ -273,7 +323,7 @@ def run_corr(p, start, tau):
     import oqupy
     from . import oq
     log = TLog()
-    c = make_callables(tau, log)
+    c = make_callables(tau, log, p.get("typed"))
     o = _ops()
     sysm = oqupy.TimeDependentSystem(c.ham, gammas=[c.gam], lindblad_operators=[c.lop])
     pt = oq.identity_pt(p["n"], dt=p["dt"])
@@ -398,7 +448,76 @@ def gen_cases(rng, tier):
             start = rng.choice(STARTS + [rng.uniform(-3, 3)])
             for tau in taus(2 if tier == "quick" else 4):
                 cases.append((api, p, start, tau))
+    cases += typed_cases(rng, 1 if tier == "quick" else 3)
+    cases += far_cases(rng, 1 if tier == "quick" else 3)
     return cases
+
+
+TYPED_APIS = ["tempo", "pt+compute_dynamics", "compute_dynamics_with_field", "mft"]
+
+
+def typed_cases(rng, per_api):
+    """callables whose return type changes at u_b, with a shift that moves the constructors'
+    probe time (absolute 1.0, i.e. u = 1.0 unshifted and u = 1.0 - tau shifted) across u_b"""
+    out = []
+    for api in TYPED_APIS:
+        done = 0
+        while done < per_api:
+            start = rng.choice([0.0, 0.0, 0.5, -0.3])
+            tau = rng.choice([0.45, 1.7, -0.3, -2.05, 0.0371 + 0.3, rng.uniform(-2, 2)])
+            dt, n = 0.1, 12
+            lo = max(min(1.0, 1.0 - tau), start) + 0.06
+            hi = min(max(1.0, 1.0 - tau), start + n * dt) - 0.06
+            if hi - lo < 0.05:
+                continue
+            ub = rng.uniform(lo, hi)
+            p = {"dt": dt, "n": n, "subdiv": None, "frac": 0.0, "typed": ub, "record_all": True,
+                 "controls": [], "step_controls": [], "real_pt": False}
+            out.append((api, p, start, tau))
+            done += 1
+    return out
+
+
+FAR_ORIGINS = [5000.0, -5000.0, 12345.678, 1.0e5, -3.3e4]
+
+
+def far_cases(rng, k):
+    """time origins far from zero (|start| up to 1e5, dt >= 0.05): off-grid and on-grid durations"""
+    out = []
+    for api in ("tempo", "mft"):
+        for _ in range(k):
+            dt = rng.choice([0.1, 0.2, 0.05])
+            n = rng.choice([9, 10, 7])
+            frac = rng.choice([0.0, 0.7, rng.uniform(0.05, 0.95)])
+            p = {"dt": dt, "n": n, "subdiv": None, "frac": frac}
+            out.append((api, p, 0.0, rng.choice(FAR_ORIGINS)))
+    return out
+
+
+def step_count_family(res, rng, tier):
+    """function level, real code: the number of steps to an end time must not depend on the origin
+    (on-grid durations m*dt and off-grid ones (m+f)*dt, origins up to 1e5)"""
+    import oqupy
+    from . import oq
+    nrep = 40 if tier == "quick" else 400
+    for i in range(nrep):
+        dt = rng.choice([0.1, 0.2, 0.05, 0.13, 0.25])
+        m = rng.randrange(0, 31)
+        f = rng.choice([0.0, 0.0, 0.7, rng.uniform(0.05, 0.95)])
+        origin = rng.choice(FAR_ORIGINS + [rng.uniform(-1e5, 1e5), rng.uniform(-50, 50)])
+        got = {}
+        for s in (0.0, origin):
+            end = s + (m + f) * dt
+            stub = NS(_start_time=s, _parameters=NS(dt=dt))
+            got[s] = (oqupy.Tempo._get_num_step(stub, 0, end),
+                      oqupy.MeanFieldTempo._get_num_step(stub, 0, end))
+        res.count("step-count:%s" % ("on-grid" if f == 0.0 else "off-grid"))
+        res.case("stepcount dt=%r m=%d f=%r origin=%r" % (dt, m, f, origin), True)
+        if got[0.0] != got[origin] or got[0.0] != (m, m):
+            res.disagree("the number of steps to start + %r*dt depends on the time origin: %r at 0, "
+                         "%r at %r" % (m + f, got[0.0], got[origin], origin),
+                         {"api": "tempo", "params": {"dt": dt, "n": m, "frac": f, "subdiv": None},
+                          "start": 0.0, "tau": origin, "how": "step count"})
 
 
 # ---------------------------------------------------------------------------
@@ -493,6 +612,23 @@ def gen_site_inputs(rng, site):
     for v in site.ivars:
         ivals.append(rng.randrange(0, 3000) if v != "start_step" else rng.randrange(0, 50))
     return fvals, ivals
+
+
+def check_probes(res):
+    out = fw.run_driver(PID, ["probes"])
+    for item in out[0].split(";"):
+        f = item.split("|")
+        if len(f) != 5:
+            raise fw.Infra("cannot parse the probe table entry %r" % item)
+        res.count("probes")
+        for k in f[3].split(","):
+            res.count("probe-keeps:" + k)
+        res.case("probe " + item, True)
+        if f[4] != "ok":
+            fw.log("%s: a callable is evaluated at the fixed time %s and more than a validation / "
+                   "shape survives (%s)" % (f[1], f[2], f[3]))
+            res.disagree("probe %s at the fixed time %s keeps %s" % (f[0], f[2], f[3]),
+                         {"probe": f[0], "where": f[1], "kept": f[3]})
 
 
 def check_sites(res, table, rng, tier):
@@ -777,13 +913,16 @@ def correspondence(res, tier, rng):
             res.disagree("the driver evaluates the obligation of site %s to false" % s.name,
                          {"site": s.name, "where": s.where})
     check_sites(res, table, rng, tier)
+    check_probes(res)
+    step_count_family(res, rng, tier)
     cases = gen_cases(rng, tier)
     runs = []
     for (api, p, start, tau) in cases:
         bad, base, shif, tau_eff = differential(api, p, start, tau)
         kind = ("tau>0" if tau > 0 else "tau<0") + ("" if abs(tau / p["dt"] - round(tau / p["dt"])) < 1e-9
                                                     else ",not-multiple-of-dt")
-        res.count("run:%s" % api)
+        res.count("run:%s%s" % (api, ":typed-callables" if p.get("typed") is not None else
+                                ":far-origin" if abs(tau) >= 1000 else ""))
         res.count("shift:" + kind)
         res.count("subdiv:%s" % ("None" if p["subdiv"] is None else "quad_vec"))
         res.case("run %s %s start=%r tau=%r" % (api, json.dumps(p, sort_keys=True), start, tau), True,
@@ -839,6 +978,15 @@ def search(res, rng=None):
                  "order": "ordered"}
             for tau in (1.0, -0.37, 2.5):
                 fixed.append((api, p, 0.5, tau))
+    for api in ("tempo", "mft"):
+        for tau in (5000.0, -5000.0, 12345.678):
+            for frac in (0.7, 0.0):
+                fixed.insert(0, (api, {"dt": 0.1, "n": 9, "subdiv": None, "frac": frac}, 0.0, tau))
+    for api in TYPED_APIS:
+        for (tau, ub) in ((0.45, 0.9), (1.7, 0.62), (-0.3, 1.12)):
+            fixed.insert(0, (api, {"dt": 0.1, "n": 12, "subdiv": None, "frac": 0.0, "typed": ub,
+                                   "record_all": True, "controls": [], "step_controls": [],
+                                   "real_pt": False}, 0.0, tau))
     seen = set()
     for (api, p, start, tau) in fixed + cases:
         try:
@@ -883,6 +1031,11 @@ def run(tier, seed, replay):
         "logged time arguments minus tau (1e-12 relative), values (1e-9), reported times minus tau "
         "(1e-12 relative).  model-vs-run: the logged arguments, integration bounds, labels, selected "
         "control steps and correlation axes of each run vs the generated expressions, bit-exact.  "
+        "probes: the regenerated list of evaluations at a fixed absolute time with what is kept.  "
+        "typed-callables: the same runs with callables whose return TYPE changes at u_b (int/float "
+        "rate, real/complex operators) and a shift that moves the probe time 1.0 across u_b.  "
+        "far-origin: origins up to 1e5 with on-/off-grid durations, real runs and the real "
+        "_get_num_step (step count independent of the origin).  "
         "Non-trivial = not a bare variable hand-through; distinct = distinct protocol line / run.")
     res.assumptions = [
         "binary64 model: round-to-nearest-even on rationals, no overflow/subnormal/NaN; dt > 0",
@@ -904,8 +1057,11 @@ def run(tier, seed, replay):
         "float control / correlation times are bit-identically converted only for an EXACT shift of the "
         "inputs (inv_sites_binary64_exact); a shifted time that is itself rounded (t+tau not "
         "representable) can cross a rounding tie k+1/2 - generated inputs keep 0.15*dt away from ties",
-        "constructors probe the callables once at the fixed time 1.0 (input validation, "
-        "TimeDependentSystem.__init__, _check_*): not covariant, no influence on results",
+        "constructors probe the callables once at the fixed absolute time 1.0: the translator lists "
+        "every such evaluation with what survives of it and all_probes_ok demands validation/shape "
+        "only; that the shape and validity of a callable's value do not depend on the time is a "
+        "hypothesis of probe_shift_invariant (a callable that is invalid exactly at t=1.0 is rejected "
+        "at one origin and accepted at another - input validation, outside the statement)",
         "guess_tempo_parameters samples the Hamiltonian on np.linspace(start, end); GibbsTempo has "
         "no time origin; bath_dynamics has no start_time parameter - outside the statement",
         "PtTebd: only its label expression (PtTebd.time) is covered, no runs",
